@@ -49,8 +49,9 @@ Clauses(ev) ==
         <<"SameOnlyIfEmpty", same => Len(d) = 0>>,
         <<"NoIgnoredPath", NoIgnoredPath(d, ign)>>,
         <<"IgnoredOnlyEmpty", (Has(ev, "expectEmpty") /\ ev.expectEmpty) => Len(d) = 0>>,
-        <<"TsPatch",     Has(ev, "pts") => (wf /\ Eq(ev.pts, pa))>>,
-        <<"TsPatchIsPyPatch", (Has(ev, "pts") /\ Has(ev, "p")) => Eq(ev.pts, ev.p)>>,
+        <<"TsPatchIsSpecPatch", (Has(ev, "pts") /\ Has(ev, "exact")) => (wf /\ Eq(ev.pts, pa))>>,
+        \* pjs: nbdime's Python patch result encoded the way JavaScript sees numbers (1.0 and 1 are one value)
+        <<"TsPatchIsPyPatch", Has(ev, "pts") => (Has(ev, "pjs") /\ Eq(ev.pts, ev.pjs))>>,
         <<"TsAccepts",   ~Has(ev, "tsraised")>>,
         <<"FilePatch",   Has(ev, "pfile") => Eq(ev.pfile, ev.b)>>,
         <<"FileDiffSame", Has(ev, "dfile") => (WellFormed(ev.a, ev.dfile) /\ Eq(Patch(ev.a, ev.dfile), pa))>>,
